@@ -153,12 +153,12 @@ def check(ctx):
     script = [x for ln in script for x in ([ln, "Pdn" + ln[2:]] if ln.startswith("Pd ") and ctx.rng.random() < 0.08 else [ln])]
     t = ctx.drive(drv, script, "pfloat")
     bad = ctx.judge("PrintfFloatTrace", [t])
+    for b in bad: b["driver"] = "drv_printf"
     # the second build configuration (size-optimised, plain char unsigned) on part of the executions
     ta = ctx.drive(c06.build(ctx, alt=True), core.subset_executions(script, ctx.seed, 1.0 if ctx.thorough else 0.25), "pfloat_alt")
     bada = ctx.judge("PrintfFloatTrace", [ta], shards=16)
     for b in bada: b["driver"] = "drv_printf@alt"
     bad += bada
-    for b in bad: b["driver"] = "drv_printf"
     ctx.report(bad)
     ctx.assumptions += [
         "one floating directive per call; double arguments (with and without the l modifier); long double (L) is not generated",
